@@ -312,8 +312,8 @@ def classify(w):
     if infl == "rename_inbox" and kinds <= {"acknowledged-flags-lost"}:
         return "C11-kill-inside-rename-inbox-loses-flags-of-moved-messages"
     box = (w.get("detail") or "").split(":", 1)[0]
-    if (infl in ("rename_inbox", "expunge", "move", "close", "delete") and kinds and kinds <= {"fetch-failed-after-restart", "mailbox-not-selectable"}
-            and box and box in (w.get("mtime_not_newer") or [])):
+    if (infl in ("rename_inbox", "expunge", "move", "close", "delete") and kinds and kinds <= {"fetch-failed-after-restart", "mailbox-not-selectable", "append-after-recovery-inherits-flags"}
+            and kinds & {"fetch-failed-after-restart", "mailbox-not-selectable"} and box and box in (w.get("mtime_not_newer") or [])):
         # killed inside a command that removes messages from this mailbox; when the server came back the folder's
         # mtime (one-second granularity) was not newer than the stored one, so it did not look at the folder and
         # still lists messages that are gone
